@@ -38,6 +38,8 @@ pub struct CliScenario {
     pub max_step_size: Option<f64>,
     pub convergence: Option<f64>,
     pub threads: u64,
+    /// number of -v flags (0: info, 1: debug, 2+: trace): debug!/trace! statements then run too
+    pub verbosity: u64,
     /// "none" | "enoent" | "enotdir" | "eisdir-json" | "eisdir-svg" | "enospc-json" | "enospc-svg"
     /// | "start-config-missing" | "stale-output"
     pub fault: String,
@@ -74,6 +76,7 @@ impl CliScenario {
             .set("max_step_size", of(self.max_step_size))
             .set("convergence", of(self.convergence))
             .set("threads", J::uint(self.threads))
+            .set("verbosity", J::uint(self.verbosity))
             .set("fault", J::str(self.fault.clone()))
     }
     pub fn from_json(j: &J) -> Result<CliScenario, String> {
@@ -97,6 +100,7 @@ impl CliScenario {
             max_step_size: f("max_step_size"),
             convergence: f("convergence"),
             threads: u("threads").unwrap_or(1),
+            verbosity: u("verbosity").unwrap_or(0),
             fault: s("fault").unwrap_or_else(|| "none".into()),
         })
     }
@@ -104,6 +108,9 @@ impl CliScenario {
     /// argv after the program name; `out` is the --outfile value
     pub fn argv(&self, out: &str, start_config: Option<&str>) -> Vec<String> {
         let mut a: Vec<String> = vec![];
+        for _ in 0..self.verbosity {
+            a.push("-v".to_string());
+        }
         let mut opt = |k: &str, v: Option<String>| {
             if let Some(v) = v {
                 a.push(k.to_string());
@@ -323,6 +330,7 @@ pub fn gen_valid(rng: &mut Rng) -> CliScenario {
         max_step_size: *rng.pick(&[None, Some(0.01), Some(0.1), Some(0.0)]),
         convergence: *rng.pick(&[None, None, Some(1e-6), Some(0.0)]),
         threads: 1,
+        verbosity: *rng.pick(&[0u64, 0, 0, 1, 2, 3]),
         fault: "none".into(),
     }
 }
